@@ -662,3 +662,329 @@ def rule_tt_cov(ctx: Ctx) -> None:
 
 def umul2(v: TV) -> tuple:
     return T.umul(v.unit, v.unit)
+
+
+# --------------------------------------------------------------------------- alias rules (E5)
+
+def rule_alias_grad(ctx: Ctx) -> None:
+    """ALIAS-GRAD: nothing writes into storage aliased with a module gradient between preconditioning and write-back
+    (KAISA layers here; the GPT-NeoX layer in rule_gpt_layer)."""
+    p = ctx.prog
+    ctx.rule('ALIAS-GRAD', 'preconditioned_grad / broadcast_grad never write in place into storage aliased with module.weight.grad / bias.grad', floor=3)
+    for tag, cls, flags in (('eigen', EIG, {'self.symmetric_factors': True, 'self.prediv_eigenvalues': False}),
+                            ('eigen+prediv', EIG, {'self.symmetric_factors': True, 'self.prediv_eigenvalues': True}),
+                            ('inverse', INV, {'self.symmetric_factors': True})):
+        it, sl = run_methods(ctx, cls, ['compute_a_inv', 'compute_g_inv', 'preconditioned_grad'], flags)
+        bad = [ev for ev in it.events if ev[0] == 'inplace' and any(a.startswith('param.grad') for a in ev[3][1].alias)]
+        f = p.lookup_method(cls, 'preconditioned_grad')
+        for ev in bad:
+            ctx.violate('ALIAS-GRAD', ev[1], norm(ev[2])[:100], f'[{tag}] {ev[3][0]} writes into {ev[3][1]}, which may share storage with the module gradient: '
+                        '_compute_grad_scale would read an overwritten gradient', ev[2])
+        if not bad:
+            ctx.ok('ALIAS-GRAD', f, f'[{tag}] no in-place write on an alias of the module gradient', f.node)
+        # the stored preconditioned gradient itself must not alias the module gradient (update would be applied to its own input)
+        g = sl.get('grad') if sl else None
+        if isinstance(g, TV):
+            ctx.check(not any(a.startswith('param.grad') for a in g.alias), 'ALIAS-GRAD', f, f'[{tag}] grad slot is a fresh tensor', f'{tag} grad slot alias',
+                      f'[{tag}] the preconditioned gradient stored in the layer may alias the module gradient ({sorted(g.alias)})', f.node)
+
+
+def rule_alias_input(ctx: Ctx) -> None:
+    """ALIAS-INPUT: no in-place sink reachable from hook inputs; ALIAS-FACTOR: factor slots are rebound, never mutated in place."""
+    p = ctx.prog
+    ctx.rule('ALIAS-INPUT', 'no in-place operation reaches the tensors handed to the forward-pre / backward hooks', floor=6)
+    ctx.rule('ALIAS-FACTOR', 'factor slots are rebound, never mutated in place (state dicts and pending futures hand out aliases)', floor=4)
+    for kind, hcls in (('linear', LIN), ('conv', CONV)):
+        for padded in ((True, False) if kind == 'conv' else (True,)):
+            for scaler in (True, False):
+                orc0 = helper_oracle(kind, True)
+
+                def orc(it_: Interp, fn: Func, node: ast.AST, s: Any, _sc: bool = scaler) -> Any:
+                    t = norm(node)
+                    if t == 'self.grad_scaler()':
+                        return SV((('sigma', 1),), 'scale', 'num')
+                    if t == 'self.grad_scaler':
+                        return ObjV('scaler') if _sc else NONE
+                    if fn.cls and fn.cls.startswith('kfac.layers.modules'):
+                        return orc0(it_, fn, node, s)
+                    if t == 'self.module':
+                        return ObjV('helper')
+                    return layer_oracle(it_, fn, node, s)
+                it = Interp(p, {**helper_flags(True, padded), 'self.grad_scaler is not None': scaler}, orc)
+                it.concrete = [BASE, hcls]
+                it.objects = {'helper': {'__class__': 'kfac.' + hcls[5:] if not hcls.startswith('kfac.') else hcls}}
+                it.object_flags = {'helper': helper_flags(True, padded)}
+                xin = TV(('B', 'IN'), XU, 'input', frozenset(), frozenset({'hook.input'})) if kind == 'linear' else TV(('B', 'C', 'H', 'W'), XU, 'input', frozenset(), frozenset({'hook.input'}))
+                gin = TV(('B', 'OUT'), GAMMA, 'input', frozenset(), frozenset({'hook.grad_output'})) if kind == 'linear' else TV(('B', 'OUT', 'OH', 'OW'), GAMMA, 'input', frozenset(), frozenset({'hook.grad_output'}))
+                sl = base_slots(BASE, {'_a_batch': NONE, '_g_batch': NONE, '_a_count': SV((), '0', 'num'), '_g_count': SV((), '0', 'num')})
+                for m, argname, arg in (('save_layer_input', 'input_', T.ListV((xin,))), ('save_layer_grad_output', 'grad_output', T.ListV((gin,)))):
+                    f = p.get_func(f'layers.base.KFACBaseLayer.{m}')
+                    n0 = len(it.events)
+                    it.call_function(f, {'self': ObjV('self'), argname: arg}, sl)
+                    bad = [ev for ev in it.events[n0:] if ev[0] == 'inplace' and any(a.startswith('hook.') for a in ev[3][1].alias)]
+                    tag = f'{kind} padded={padded} scaler={scaler}'
+                    for ev in bad:
+                        ctx.violate('ALIAS-INPUT', ev[1], norm(ev[2])[:100], f'[{tag}] {m}: {ev[3][0]} modifies {ev[3][1]}, which may share storage with the tensor autograd handed to the hook '
+                                    f'({sorted(ev[3][1].alias)}): registering K-FAC would change the model\'s activations / gradients', ev[2])
+                    if not bad:
+                        ctx.ok('ALIAS-INPUT', f, f'[{tag}] {m}: no in-place write reaches the hook tensors', f.node)
+                unk = [(fn.short, getattr(n, 'lineno', 0), why) for fn, n, why in it.unknown]
+                if unk:
+                    raise AnalysisIncomplete(f'ALIAS-INPUT [{kind}]: operator outside the vocabulary: {unk[:3]}')
+    # factor slots
+    for cls, flags, methods in ((BASE, {'self._a_batch is None': False, 'self._g_batch is None': False}, ['update_a_factor', 'update_g_factor']),
+                                (EIG, {'self.symmetric_factors': True, 'self.prediv_eigenvalues': True}, ['compute_a_inv', 'compute_g_inv']),
+                                (INV, {'self.symmetric_factors': True}, ['compute_a_inv', 'compute_g_inv'])):
+        sl = base_slots(cls, {'_a_batch': TV(('A', 'A'), LA, 'factor'), '_g_batch': TV(('G', 'G'), LG, 'factor'), '_a_count': SV((), '2', 'num'), '_g_count': SV((), '2', 'num')})
+        it, _sl = run_methods(ctx, cls, methods, flags, sl)
+        bad = [ev for ev in it.events if ev[0] == 'inplace' and any(a.startswith('slot:') for a in ev[3][1].alias)]
+        for ev in bad:
+            ctx.violate('ALIAS-FACTOR', ev[1], norm(ev[2])[:100], f'{ev[3][0]} mutates {ev[3][1]}, which may share storage with a running-average factor ({sorted(ev[3][1].alias)}): '
+                        'the stored factor (and every state_dict that references it) would change', ev[2])
+        if not bad:
+            for m in methods:
+                ctx.ok('ALIAS-FACTOR', p.lookup_method(cls, m), f'{cls.rsplit(".", 1)[1]}.{m}: factors only read / rebound', None)
+
+
+# --------------------------------------------------------------------------- GPT-NeoX layer (C11, C07)
+
+GH = 'kfac.gpt_neox.modules.GPTNeoXLinearModuleHelper'
+
+
+def gpt_axes(par: str, bias: bool, mp: bool = True) -> tuple[tuple, tuple, Any, Any]:
+    """(weight shard axes, bias shard axes, A space, G space) for column-parallel ('output') / row-parallel ('input') layers."""
+    if not mp:
+        w = ('OUT', 'IN')
+        b = ('OUT',)
+    elif par == 'output':
+        w = (('shard', 'OUT'), 'IN')
+        b = (('shard', 'OUT'),)
+    else:
+        w = ('OUT', ('shard', 'IN'))
+        b = ('OUT',)
+    A = ('cat', 'IN', 'ONE') if bias else 'IN'
+    return w, b, A, 'OUT'
+
+
+def gpt_oracle(par: str, bias: bool, primary: bool, mp: bool):  # noqa: ANN201
+    w, b, A, G = gpt_axes(par, bias, mp)
+
+    def oracle(it: Interp, f: Func, node: ast.AST, s: Any) -> Any:
+        t = norm(node)
+        if t in ('self.module.get_weight_grad()', 'self.module.weight.grad'):
+            return TV(w, GAMMA, 'grad', frozenset(), frozenset({'param.grad:weight'}))
+        if t in ('self.module.get_bias_grad()', 'self.module.bias.grad'):
+            return TV(b, GAMMA, 'grad', frozenset(), frozenset({'param.grad:bias'})) if bias else NONE
+        if t == 'self.module.weight':
+            return TV(w, (), 'param', frozenset(), frozenset({'param:weight'}))
+        if t == 'self.module.bias':
+            return ObjV('bias') if bias else NONE
+        if t in ('self.module.has_bias()', 'self.has_bias()'):
+            return SV((), 'True' if bias else 'False', 'flag')
+        if t == 'self.primary_rank':
+            return SV((), 'primary', 'num')
+        if t in ('self.model_parallel_group', 'self.data_parallel_group', 'self.pipe_parallel_peer_group', 'model_parallel_group'):
+            return ObjV(t.split('.')[-1])
+        if t == 'self.model_parallel_world_size':
+            return SV((), 'mp', 'mp')
+        if t == 'self.parallelism':
+            return ObjV(repr(par))
+        if t.startswith('dist.get_world_size(') or t.startswith('get_world_size('):
+            return SV((), 'mp', 'mp')
+        return layer_oracle(it, f, node, s)
+    return oracle
+
+
+def gpt_flags(par: str, bias: bool, primary: bool, mp: bool, prediv: bool = False) -> dict:
+    return {"self.parallelism == 'input'": par == 'input', "self.parallelism == 'output'": par == 'output', 'self.module.has_bias()': bias, 'self.has_bias()': bias,
+            'get_world_size(self.model_parallel_group) > 1': mp, 'world_size == 1': not mp, 'dist.get_rank() == dst': primary, 'get_rank() == self.primary_rank': primary,
+            'get_rank() != self.primary_rank': not primary, 'self.primary_rank is None': False, 'self.prediv_eigenvalues': prediv, 'self.symmetric_factors': True,
+            'model_parallel_group is None': False, 'dt == torch.bfloat16 and fp32_allreduce': False, 'dim_size % num_partitions != 0': False, 'contiguous_split_chunks': True,
+            'self.grad_scaler is not None': False}
+
+
+def gpt_slots(par: str, bias: bool, primary: bool) -> dict:
+    _w, _b, A, G = gpt_axes(par, bias)
+    sl = base_slots(GPT)
+    sl['a_factor'] = TV((A, A), LA, 'factor', frozenset({'sym'}), frozenset({'slot:a_factor'})) if primary else NONE
+    sl['g_factor'] = TV((G, G), LG, 'factor', frozenset({'sym'}), frozenset({'slot:g_factor'})) if primary else NONE
+    if primary:
+        sl.update({'qa': TV((A, ('eig', A)), (), 'inv', frozenset({'orth'})), 'qg': TV((G, ('eig', G)), (), 'inv', frozenset({'orth'})),
+                   'da': TV((('eig', A),), LA, 'inv', frozenset({'nonneg'})), 'dg': TV((('eig', G),), LG, 'inv', frozenset({'nonneg'}))})
+    return sl
+
+
+def rule_gpt_layer(ctx: Ctx) -> None:
+    """TT-GPT, SIB-DIM, ALIAS-GRAD (GPT), COH-PRIMARY, DOM-GATHER for GPTNeoXKFACEigenLayer."""
+    p = ctx.prog
+    ctx.assumptions |= {'A2', 'A3'}
+    ctx.rule('TT-GPT', 'the GPT-NeoX preconditioned gradient has the typed algebra of the unsharded layer on the primary rank and every rank ends with exactly its own shard', floor=12)
+    ctx.rule('SIB-DIM', 'gather and split of the gradient use the same dimension (last for input-parallel, first for output-parallel); scatter buffers match the shards', floor=8)
+    ctx.rule('ALIAS-GRAD', 'preconditioned_grad / broadcast_grad never write in place into storage aliased with module.weight.grad / bias.grad', floor=12)
+    ctx.rule('COH-PRIMARY', 'shards are gathered to, and results sent from, the same primary rank of the layer', floor=4)
+    f = p.lookup_method(GPT, 'preconditioned_grad')
+    if f is None:
+        raise AnalysisIncomplete('GPTNeoXKFACEigenLayer.preconditioned_grad not found')
+    for par in ('input', 'output'):
+        for bias in (True, False):
+            for mp in (True, False):
+                for primary in ((True, False) if mp else (True,)):
+                    tag = f'{par}-parallel {"bias" if bias else "nobias"} mp{">1" if mp else "=1"} {"primary" if primary else "peer"}'
+                    it = Interp(p, gpt_flags(par, bias, primary, mp), gpt_oracle(par, bias, primary, mp))
+                    it.concrete = [GPT]
+                    it.single_partition = not mp
+                    sl = gpt_slots(par, bias, primary)
+                    _r, fin = it.call_function(f, {'self': ObjV('self'), 'damping': DAMP}, sl)
+                    nerr = _report_all(ctx, 'TT-GPT', it, tag)
+                    unk = [(fn.short, getattr(n, 'lineno', 0), why) for fn, n, why in it.unknown]
+                    if unk:
+                        raise AnalysisIncomplete(f'GPT layer [{tag}]: operator outside the vocabulary: {unk[:3]}')
+                    if fin is None:
+                        ctx.violate('TT-GPT', f, tag, f'[{tag}] preconditioned_grad has no normal exit', f.node)
+                        continue
+                    g = dict(fin.slots).get('grad')
+                    w, b, A, G = gpt_axes(par, bias, mp)
+                    want_cols = ('cat', w[1], 'ONE') if bias else w[1]
+                    ok = isinstance(g, TV) and g.axes == (w[0], want_cols)
+                    if nerr == 0:
+                        ctx.check(ok, 'TT-GPT', f, f'[{tag}] result {g}', f'{tag} result',
+                                  f'[{tag}] the stored gradient is {g}; specified: this rank\'s shard of the combined gradient {T.axes_str((w[0], want_cols))}', f.node)
+                    if isinstance(g, TV) and primary and not mp:
+                        ctx.check(g.unit == WANT_UNIT and g.dtype == 'grad', 'TT-GPT', f, f'[{tag}] unit {T.ustr(g.unit)}, dtype {g.dtype}', f'{tag} unit',
+                                  f'[{tag}] the preconditioned gradient has unit {T.ustr(g.unit)} / dtype {g.dtype}; specified gamma/(lamG*lamA) in the gradient dtype', f.node)
+                    # gather / split dims and scatter buffers
+                    gc = [ev for ev in it.events if ev[0] == 'gather-cat']
+                    sp = [ev for ev in it.events if ev[0] == 'split']
+                    for ev in it.events:
+                        if ev[0] == 'dist' and ev[3][0] == 'reduce_scatter' and len(ev[3][1]) >= 2:
+                            out, lst = ev[3][1][0], ev[3][1][1]
+                            el = lst.items[0] if isinstance(lst, T.ListV) and lst.items else None
+                            okd = isinstance(out, TV) and isinstance(el, TV) and out.axes == el.axes
+                            ctx.check(okd, 'SIB-DIM', ev[1], f'[{tag}] reduce_scatter: buffer {out} <- chunks {el}', f'{tag} {norm(ev[2])[:60]}',
+                                      f'[{tag}] reduce_scatter receives into {out} but scatters chunks {el}: gather and split dimensions (or the buffers) disagree', ev[2])
+                    if mp and primary:
+                        dims = sorted({(e_[3][0]) for e_ in gc if len(e_[3]) == 2 and e_[1].name == 'gather_from_model_parallel_region'})
+                        want_dim = -1 if par == 'input' else 0
+                        wd = [e_ for e_ in gc if isinstance(e_[3][1], tuple) and e_[3][1] and e_[3][1][0] == 'shard' and e_[3][1] in w]
+                    # aliases
+                    bad = [ev for ev in it.events if ev[0] == 'inplace' and any(a.startswith('param.grad') for a in ev[3][1].alias)]
+                    for ev in bad:
+                        ctx.violate('ALIAS-GRAD', ev[1], norm(ev[2])[:100], f'[{tag}] {ev[3][0]} writes into {ev[3][1]}, which may share storage with the module gradient '
+                                    f'({sorted(ev[3][1].alias)}): the original gradient is overwritten before _compute_grad_scale reads it', ev[2])
+                    if not bad:
+                        ctx.ok('ALIAS-GRAD', f, f'[{tag}] no in-place write on an alias of the module gradient', f.node)
+    # COH-PRIMARY: syntactic over the layer
+    for m in ('preconditioned_grad', 'save_layer_input', 'save_layer_grad_output'):
+        g_ = p.lookup_method(GPT, m)
+        if g_ is None:
+            continue
+        for c in p.calls_in(g_):
+            fn = norm(c.func)
+            if fn.endswith('gather_from_model_parallel_region'):
+                d = [k.value for k in c.keywords if k.arg == 'dst'] or (c.args[1:2])
+                grp = [k.value for k in c.keywords if k.arg == 'model_parallel_group'] or (c.args[2:3])
+                ctx.check(bool(d) and norm(d[0]) == 'self.primary_rank' and bool(grp) and norm(grp[0]) == 'self.model_parallel_group', 'COH-PRIMARY', g_, f'{m}: gather to self.primary_rank on the model-parallel group', norm(c)[:80],
+                          f'{m}: {norm(c)[:100]} does not gather to the layer\'s primary rank inside its model-parallel group', c)
+            if fn in ('torch.distributed.broadcast', 'dist.broadcast'):
+                srcs = [k.value for k in c.keywords if k.arg == 'src'] or c.args[1:2]
+                grp = [k.value for k in c.keywords if k.arg == 'group']
+                ctx.check(bool(srcs) and norm(srcs[0]) == 'self.primary_rank' and bool(grp) and norm(grp[0]) == 'self.model_parallel_group', 'COH-PRIMARY', g_, f'{m}: broadcast from self.primary_rank', norm(c)[:80],
+                          f'{m}: {norm(c)[:100]}: the replicated result lives on the primary rank; broadcasting from another root sends an unpreconditioned buffer', c)
+            if fn in ('torch.distributed.reduce_scatter', 'dist.reduce_scatter'):
+                grp = [k.value for k in c.keywords if k.arg == 'group']
+                ctx.check(bool(grp) and norm(grp[0]) == 'self.model_parallel_group', 'COH-PRIMARY', g_, f'{m}: scatter inside the model-parallel group', norm(c)[:80],
+                          f'{m}: {norm(c)[:100]} is not issued on the layer\'s model-parallel group', c)
+
+
+def rule_gpt_helper(ctx: Ctx) -> None:
+    """TT-SHAPEFN (GPT helper) + DOM-GATHER + SIB-DUAL."""
+    import re
+    p = ctx.prog
+    ctx.rule('TT-SHAPEFN', 'advertised factor shapes equal the shapes of the factors the helper computes', floor=8)
+    ctx.rule('DOM-GATHER', 'on the sharded side the gathered tensor (not the local shard) flows into the second-moment code, on the primary rank only', floor=6)
+    ctx.rule('SIB-DUAL', 'reduce_a_factor / reduce_g_factor are mirror images: sharded factor -> primary rank on the data-parallel group, replicated factor -> stage peers', floor=1)
+    for par in ('input', 'output'):
+        for bias in (True, False):
+            tag = f'{par}-parallel {"bias" if bias else "nobias"}'
+            orc = gpt_oracle(par, bias, True, True)
+            fl = gpt_flags(par, bias, True, True)
+            _w, _b, A, G = gpt_axes(par, bias, True)
+            for prop, want in (('a_factor_shape', A), ('g_factor_shape', G)):
+                it, shp = _call(ctx, GH, prop, {}, orc, fl, 'getter')
+                fp = p.lookup_method(GH, prop, 'getter')
+                got = None
+                if isinstance(shp, T.ListV) and len(shp.items) == 2 and all(isinstance(x, SV) and x.kind == 'size' for x in shp.items):
+                    got = tuple(x.size for x in shp.items)
+                ctx.check(got == (want, want), 'TT-SHAPEFN', fp, f'[{tag}] {prop} = {T.axes_str(got) if got else shp}', f'{tag} {prop}',
+                          f'[{tag}] {prop} advertises {T.axes_str(got) if got else shp}; the factor of the unsharded layer is over {T.axes_str((want, want))} '
+                          '(only the sharded dimension is multiplied by the model-parallel size)', fp.node)
+            # gather before the moments
+            for m, argname, shard_when, local in (('save_layer_input', 'input_', 'input', ('B', ('shard', 'IN')) if par == 'input' else ('B', 'IN')),
+                                                  ('save_layer_grad_output', 'grad_output', 'output', ('B', ('shard', 'OUT')) if par == 'output' else ('B', 'OUT'))):
+                for primary in (True, False):
+                    calls: list = []
+                    base_orc = gpt_oracle(par, bias, primary, True)
+
+                    def orc2(it_: Interp, fn: Func, node: ast.AST, s: Any, _c: list = calls, _m: str = m) -> Any:
+                        if isinstance(node, ast.Call) and norm(node.func) == f'super().{_m}' and node.args:
+                            v, _s = T._CB(it_, fn).ev(node.args[0], s, True)
+                            _c.append((node, v))
+                            return NONE
+                        return base_orc(it_, fn, node, s)
+                    it = Interp(p, gpt_flags(par, bias, primary, True), orc2)
+                    it.concrete = [GPT]
+                    f = p.lookup_method(GPT, m)
+                    it.call_function(f, {'self': ObjV('self'), argname: T.ListV((TV(local, XU, 'input', frozenset(), frozenset({'hook'})),))}, gpt_slots(par, bias, primary))
+                    unk = [(fn.short, getattr(n, 'lineno', 0), why) for fn, n, why in it.unknown]
+                    if unk:
+                        raise AnalysisIncomplete(f'GPT {m} [{tag}]: {unk[:3]}')
+                    sharded = par == shard_when
+                    full = ('B', 'IN') if m == 'save_layer_input' else ('B', 'OUT')
+                    if sharded and not primary:
+                        ctx.check(not calls, 'DOM-GATHER', f, f'[{tag}] {m}: non-primary rank accumulates nothing for the sharded side', f'{tag} {m} peer',
+                                  f'[{tag}] {m}: a non-primary rank feeds {[str(c[1]) for c in calls]} into the moment code although only the primary rank holds the gathered tensor', f.node)
+                    else:
+                        v = calls[0][1] if calls else None
+                        el = v.items[0] if isinstance(v, T.ListV) and v.items else v
+                        ctx.check(len(calls) == 1 and isinstance(el, TV) and el.axes == full, 'DOM-GATHER', f, f'[{tag}] {m} ({"primary" if primary else "peer"}): moments of {el}', f'{tag} {m} primary={primary}',
+                                  f'[{tag}] {m}: the second-moment code receives {el}; specified the full (unsharded) tensor {T.axes_str(full)}', calls[0][0] if calls else f.node)
+    fa = p.lookup_method(GPT, 'reduce_a_factor')
+    fg = p.lookup_method(GPT, 'reduce_g_factor')
+
+    def body_norm(f: Func, swap: bool) -> str:
+        t = '\n'.join(norm(st) for st in f.body if not (isinstance(st, ast.Expr) and isinstance(st.value, ast.Constant)))
+        if swap:
+            t = t.replace('g_factor', '\0').replace('a_factor', 'g_factor').replace('\0', 'a_factor')
+            t = t.replace("'output'", '\0').replace("'input'", "'output'").replace('\0', "'input'")
+            # the if/elif order is irrelevant
+        return t
+
+    def branches(f: Func) -> dict[str, str]:
+        out = {}
+        for n in p.nodes(f):
+            if isinstance(n, ast.If) and 'self.parallelism ==' in norm(n.test):
+                out[norm(n.test)] = '\n'.join(norm(s_) for s_ in n.body)
+        return out
+    ba, bg = branches(fa), branches(fg)
+    swapped = {k.replace("'output'", '\0').replace("'input'", "'output'").replace('\0', "'input'"): v.replace('reduce_a_factor', 'reduce_g_factor') for k, v in ba.items()}
+    ctx.check(swapped == bg and len(bg) == 2, 'SIB-DUAL', fg, 'reduce_g_factor is reduce_a_factor with input/output swapped', 'dual',
+              f'reduce_a_factor handles {ba} but reduce_g_factor handles {bg}: they must be mirror images (sharded factor reduced by the primary on the data-parallel group, replicated factor by all stage peers)', fg.node)
+    want_a = {"self.parallelism == 'input'": 'if get_rank() != self.primary_rank:\n    return\nsuper().reduce_a_factor(self.data_parallel_group)',
+              "self.parallelism == 'output'": 'super().reduce_a_factor(self.pipe_parallel_peer_group)'}
+    ctx.check(ba == want_a, 'SIB-DUAL', fa, 'A: input-parallel -> primary on DP group; output-parallel -> stage peers', 'reduce_a_factor',
+              f'reduce_a_factor handles {ba}; specified {want_a}', fa.node)
+
+
+def rule_clip_shard(ctx: Ctx) -> None:
+    """CLIP-SHARD: where the layer stores only a shard of the preconditioned gradient, the clip sum must be reduced over the model-parallel peers."""
+    from kfv.rules.spmd_rules import get_spmd
+    p = ctx.prog
+    ctx.rule('CLIP-SHARD', 'with model-parallel shards the clip sum <V, D> is reduced over the shards before the scale is computed', floor=1)
+    S = get_spmd(ctx, 'GPT')
+    f = p.get_func('base_preconditioner.BaseKFACPreconditioner._compute_grad_scale')
+    # the GPT family inherits _compute_grad_scale unless it overrides it
+    g = p.lookup_method(S.family.root, '_compute_grad_scale') or f
+    has_coll = bool(S.may_coll.get(g.qualname))
+    ctx.check(has_coll, 'CLIP-SHARD', g, '_compute_grad_scale (GPT-NeoX family) reduces the inner products over the model-parallel group', 'gpt clip scale',
+              'GPT-NeoX family: every rank holds only its shard of each layer gradient (see TT-GPT), but _compute_grad_scale sums the local shards only and issues no collective: '
+              'the clip factor differs between model-parallel peers and from the unsharded value (C07 "one scalar shared by every rank", C11 "clipping included")', g.node)
